@@ -13,21 +13,21 @@ import (
 )
 
 const (
-	hACAO  = "Access-Control-Allow-Origin"
-	hACAC  = "Access-Control-Allow-Credentials"
-	hACAM  = "Access-Control-Allow-Methods"
-	hACAH  = "Access-Control-Allow-Headers"
-	hACEH  = "Access-Control-Expose-Headers"
-	hACMA  = "Access-Control-Max-Age"
-	hACRM  = "Access-Control-Request-Method"
-	hACRH  = "Access-Control-Request-Headers"
-	hVary  = "Vary"
-	hOrig  = "Origin"
+	hACAO = "Access-Control-Allow-Origin"
+	hACAC = "Access-Control-Allow-Credentials"
+	hACAM = "Access-Control-Allow-Methods"
+	hACAH = "Access-Control-Allow-Headers"
+	hACEH = "Access-Control-Expose-Headers"
+	hACMA = "Access-Control-Max-Age"
+	hACRM = "Access-Control-Request-Method"
+	hACRH = "Access-Control-Request-Headers"
+	hVary = "Vary"
+	hOrig = "Origin"
 )
 
 func init() {
 	register(&Spec{
-		ID: "C11",
+		ID:          "C11",
 		Explanation: "Decides (the decision procedure is loop-free; all rules are path/dominance queries, the header-write census is module-wide): R1 every write of Access-Control-Allow-Origin writes either the constant '*' arriving only over the any-origin edge, or the request's Origin value arriving only through the success edge of a membership test of that very value in the configured list; R2 Allow-Credentials is the constant 'true', only after an origin grant on the same header map and under the configured flag, and '*'+credentials is rejected by sanitize with an error that is propagated up to a panic in NewRouter/NewGroup; R3 every CORS header write is behind the false edge of deny, and deny = (len(Origins)==0); R4 cors.handle is called only on the served edge of Tree.Handler (404/405 never reach it); R5 on a preflight no path reaches the origin grant without the success edges of the method test and of the requested-header test; (A case-sensitive header-name comparison refuses more, not less: it is reported by C12.R1, not here.)",
 		Assumptions: commonAssumptions,
 		Run: func(c *Ctx) {
@@ -36,6 +36,8 @@ func init() {
 			ruleDeny(c, "R3")
 			ruleCorsOnlyServed(c, "R4")
 			ruleRefusedPreflights(c, "R5")
+			ruleSummaryRebuilt(c, "R6")
+			ruleSummaryByBuilder(c, "R6b")
 		},
 	})
 	register(&Spec{
@@ -50,6 +52,8 @@ func init() {
 			ruleCorsProvenance(c, "R4")
 			ruleCorsAlwaysOnServed(c, "R5")
 			ruleGrantComplete(c, "R6")
+			ruleSummaryRebuilt(c, "R7")
+			ruleSummaryByBuilder(c, "R7b")
 		},
 	})
 }
@@ -61,6 +65,10 @@ type headerWrite struct {
 	name string // constant header name, "" if not constant
 	hmap ssa.Value
 	val  ssa.Value
+	// a write performed by a helper on behalf of its caller (setNonEmpty(h, name, value)): inner is the helper's own
+	// write, valParam the helper's parameter that carries the value
+	inner    *headerWrite
+	valParam *ssa.Parameter
 }
 
 // headerWrites is the module-wide census of response/request header writes.
@@ -94,7 +102,55 @@ func (c *Ctx) headerWrites() []*headerWrite {
 			}
 		})
 	}
-	return out
+	// writes through a helper that receives the header map and the header name: every call of the helper with a
+	// constant name is a write of that header in the caller
+	var synth []*headerWrite
+	for _, hw := range out {
+		if hw.name != "" || hw.op == "map" {
+			continue
+		}
+		call := an.CallOf(hw.in)
+		namePar, isNP := call.Args[1].(*ssa.Parameter)
+		mapPar, isMP := hw.hmap.(*ssa.Parameter)
+		if !isNP || !isMP {
+			continue
+		}
+		idx := func(p *ssa.Parameter) int {
+			for i, q := range hw.f.Params {
+				if q == p {
+					return i
+				}
+			}
+			return -1
+		}
+		ni, mi, vi := idx(namePar), idx(mapPar), -1
+		var valPar *ssa.Parameter
+		if vp, ok := hw.val.(*ssa.Parameter); ok {
+			vi, valPar = idx(vp), vp
+		}
+		for _, f := range c.libFuncs() {
+			an.AllInstrs(f, func(in ssa.Instruction) {
+				cc := an.CallOf(in)
+				if cc == nil || an.StaticCallee(cc) != hw.f {
+					return
+				}
+				args := an.CallArgs(cc)
+				if ni >= len(args) || mi >= len(args) {
+					return
+				}
+				name, isConst := strConst(args[ni])
+				if !isConst {
+					return
+				}
+				w := &headerWrite{f: f, in: in, op: hw.op, name: name, hmap: args[mi], inner: hw, valParam: valPar}
+				if vi >= 0 && vi < len(args) {
+					w.val = args[vi]
+				}
+				synth = append(synth, w)
+			})
+		}
+	}
+	return append(out, synth...)
 }
 
 func isHTTPHeader(t types.Type) bool {
@@ -218,8 +274,29 @@ func isHeaderGet(v ssa.Value, name string) bool {
 		}
 		return true
 	}
+	// a result of a module function that returns the header value on every path
+	idx := 0
+	if ex, isEx := v.(*ssa.Extract); isEx {
+		idx = ex.Index
+		v = ex.Tuple
+	}
 	call, ok := v.(*ssa.Call)
-	if !ok || an.CalleeName(&call.Call) != "net/http.Header.Get" {
+	if !ok {
+		return false
+	}
+	if g := an.StaticCallee(&call.Call); g != nil && an.InModule(g) && len(g.Blocks) > 0 {
+		rets := an.Returns(g)
+		if len(rets) == 0 {
+			return false
+		}
+		for _, r := range rets {
+			if idx >= len(r.Results) || !isHeaderGet(an.ReturnValue(r, idx), name) {
+				return false
+			}
+		}
+		return true
+	}
+	if an.CalleeName(&call.Call) != "net/http.Header.Get" {
 		return false
 	}
 	s, ok := strConst(call.Call.Args[1])
@@ -378,9 +455,9 @@ func ruleCredentials(c *Ctx, rule string) {
 		}
 		return false, false
 	}
-	path := (&an.Query{Assume: assume, Target: func(t ssa.Instruction) bool {
+	path := (&an.Query{Assume: assume, Deep: deepDefault, Target: func(t ssa.Instruction) bool {
 		r, ok := t.(*ssa.Return)
-		return ok && an.IsSuccessReturn(r)
+		return ok && t.Parent() == sanitize && an.IsSuccessReturn(r)
 	}}).Search(an.Entry(sanitize))
 	o := c.R.Add(rule+"b", c.fk(sanitize), "anyOrigins&&AllowCredentials/returns-error", c.P.Pos(sanitize.Pos()), path == nil, ifelse(path == nil, "with any-origin and credentials no successful return is reachable", "a configuration with origin '*' and credentials is accepted"))
 	if path != nil {
@@ -388,7 +465,7 @@ func ruleCredentials(c *Ctx, rule string) {
 	}
 	// anyOrigins is set whenever '*' is in the list: the store of true is behind Contains(Origins, "*") only, and nothing resets it
 	setOK := false
-	an.AllInstrs(sanitize, func(in ssa.Instruction) {
+	sanitizeInstrs(c, sanitize, func(in ssa.Instruction) {
 		if base, field, val, ok := fieldStoreAny(in); ok && base == "recv" && field == "anyOrigins" {
 			k, isC := val.(*ssa.Const)
 			if isC && k.Value != nil && k.Value.ExactString() == "true" {
@@ -500,7 +577,7 @@ func ruleDeny(c *Ctx, rule string) {
 		c.R.Add(rule, c.fk(hw.f), "write:"+hw.name+"/outside-cors", c.pos(hw.in), false, "a CORS response header is written outside the CORS decision procedure: it bypasses deny, the origin test and the preflight tests")
 	}
 	okDeny := false
-	an.AllInstrs(sanitize, func(in ssa.Instruction) {
+	sanitizeInstrs(c, sanitize, func(in ssa.Instruction) {
 		if base, field, val, ok := fieldStoreAny(in); ok && base == "recv" && field == "deny" {
 			okDeny = c.O.Of(val).String() == "binop<==>(call<builtin:len>(recv.Origins), 0)"
 		}
@@ -999,6 +1076,19 @@ func ruleCorsProvenance(c *Ctx, rule string) {
 					return isS && s == "" && an.AP(x) == want && eq != truth
 				})
 			})
+			if !guard && hw.inner != nil && hw.valParam != nil {
+				// the helper tests the value it was given
+				guard = an.DominatedByEdge(hw.inner.in, func(b *ssa.BasicBlock, succ int) bool {
+					return edgeHas(b, succ, func(cond ssa.Value, truth bool) bool {
+						x, k, eq, ok := an.CondAtom(cond)
+						if !ok {
+							return false
+						}
+						s, isS := strConst(k)
+						return isS && s == "" && x == ssa.Value(hw.valParam) && eq != truth
+					})
+				})
+			}
 			c.R.Add(rule, c.fk(hw.f), "write:"+hw.name+"/value="+want, c.pos(hw.in), good && guard, ifelse(good && guard, "the configured string, behind its own non-emptiness", ifelse(!good, "'"+hw.name+"' is written with "+t+" instead of the configured "+want, "'"+hw.name+"' is not guarded by the non-emptiness of its own configured value")))
 		}
 	}
@@ -1008,7 +1098,7 @@ func ruleCorsProvenance(c *Ctx, rule string) {
 		"maxAgeString":         `call<strconv.Itoa>(recv.MaxAge)`,
 	}
 	got := map[string][]string{}
-	an.AllInstrs(sanitize, func(in ssa.Instruction) {
+	sanitizeInstrs(c, sanitize, func(in ssa.Instruction) {
 		if base, field, val, ok := fieldStoreAny(in); ok && base == "recv" {
 			got[field] = append(got[field], c.O.Of(val).String())
 		}
@@ -1178,4 +1268,26 @@ func (c *Ctx) corsRootsFor(f *ssa.Function) []*ssa.Function {
 		return []*ssa.Function{handle}
 	}
 	return []*ssa.Function{f}
+}
+
+// sanitizeInstrs visits the instructions of the configuration validator and of the helpers it calls on its own
+// receiver (sanitizeOrigins(), sanitizeHeaders(), … — the receiver keeps the access path "recv" there).
+func sanitizeInstrs(c *Ctx, sanitize *ssa.Function, visit func(in ssa.Instruction)) {
+	seen := map[*ssa.Function]bool{}
+	var walk func(f *ssa.Function, depth int)
+	walk = func(f *ssa.Function, depth int) {
+		if seen[f] || depth > 3 {
+			return
+		}
+		seen[f] = true
+		an.AllInstrs(f, func(in ssa.Instruction) {
+			visit(in)
+			if call := an.CallOf(in); call != nil {
+				if g := an.StaticCallee(call); g != nil && an.InModule(g) && g.Signature.Recv() != nil && len(call.Args) > 0 && an.AP(call.Args[0]) == "recv" {
+					walk(g, depth+1)
+				}
+			}
+		})
+	}
+	walk(sanitize, 0)
 }
